@@ -64,10 +64,11 @@ def main():
     r = sh(['git', '-C', '/repo', 'apply', patch])
     assert r.returncode == 0, r.stderr
     res = {}
-    # --seeds 0,1 : run every check under each VERIF_SEED; "detected" then means detected under EVERY seed
+    # --seeds=0,1 : run every check under each VERIF_SEED; "detected" then means detected under EVERY seed
     seeds = ['0']
-    if '--seeds' in sys.argv:
-        seeds = sys.argv[sys.argv.index('--seeds') + 1].split(',')
+    for a in sys.argv:
+        if a.startswith('--seeds='):
+            seeds = a.split('=', 1)[1].split(',')
     try:
         for p in pids:
             per = {}
